@@ -178,3 +178,441 @@ Section Rebind.
     rewrite reindex_ids. rewrite <- E. apply sortZ_sorted.
   Qed.
 End Rebind.
+
+(* ================================================================ text lemmas *)
+Lemma wrap_aux_concat {A} : forall fuel w (l : list A),
+  1 <= w -> length l <= fuel -> concat (wrap_aux fuel w l) = l.
+Proof.
+  induction fuel as [|f IH]; intros w l Hw Hl.
+  - destruct l; [reflexivity|simpl in Hl; lia].
+  - destruct l as [|a l]; [reflexivity|].
+    cbn [wrap_aux concat]. rewrite IH.
+    + apply firstn_skipn.
+    + exact Hw.
+    + rewrite skipn_length. cbn [length] in *. lia.
+Qed.
+
+Lemma concat_wrap {A} : forall w (l : list A), 1 <= w -> concat (wrap w l) = l.
+Proof. intros. unfold wrap. apply wrap_aux_concat; [assumption|lia]. Qed.
+
+Lemma wrap_aux_nonempty {A} : forall fuel w (l : list A) g,
+  1 <= w -> In g (wrap_aux fuel w l) -> g <> [].
+Proof.
+  induction fuel as [|f IH]; intros w l g Hw Hg; [contradiction|].
+  destruct l as [|a l]; [contradiction|]. cbn [wrap_aux] in Hg. destruct Hg as [<-|Hg].
+  - destruct w; [lia|]. discriminate.
+  - eapply IH; eassumption.
+Qed.
+
+Lemma wrap_nonempty {A} : forall w (l : list A) g, 1 <= w -> In g (wrap w l) -> g <> [].
+Proof. intros w l g. apply wrap_aux_nonempty. Qed.
+
+Lemma wrap_aux_length {A B} : forall fuel w (l : list A) (l' : list B),
+  length l = length l' -> length (wrap_aux fuel w l) = length (wrap_aux fuel w l').
+Proof.
+  induction fuel as [|f IH]; intros w l l' H; [reflexivity|].
+  destruct l, l'; try discriminate; [reflexivity|].
+  cbn [wrap_aux length]. f_equal. apply IH. rewrite !skipn_length. rewrite H. reflexivity.
+Qed.
+
+Lemma wrap_length {A B} : forall w (l : list A) (l' : list B),
+  length l = length l' -> length (wrap w l) = length (wrap w l').
+Proof. intros w l l' H. unfold wrap. rewrite H. apply wrap_aux_length. exact H. Qed.
+
+Lemma wrap_nil_iff {A} : forall w (l : list A), wrap w l = [] -> l = [].
+Proof. intros w [|a l] H; [reflexivity|discriminate H]. Qed.
+
+(* splitting on single blanks *)
+Definition nosp (c : ascii) : bool := negb (Ascii.eqb c " "%char).
+
+Lemma tokch_nosp : forall c, tokch c = true -> nosp c = true.
+Proof.
+  intros c H. unfold nosp. destruct (Ascii.eqb_spec c " "%char); [subst; discriminate H|reflexivity].
+Qed.
+
+Lemma split_sp_aux_tok : forall t cur rest,
+  forallb nosp t = true -> split_sp_aux cur (t ++ rest) = split_sp_aux (rev t ++ cur) rest.
+Proof.
+  induction t as [|c t IH]; intros cur rest H; simpl in *; [reflexivity|].
+  apply andb_true_iff in H. destruct H as [Hc Ht]. unfold nosp in Hc.
+  apply negb_true_iff in Hc. rewrite Hc. rewrite IH by exact Ht.
+  rewrite <- app_assoc. reflexivity.
+Qed.
+
+Lemma split_sp_unwords : forall ts,
+  ts <> [] -> (forall t, In t ts -> forallb nosp t = true) -> split_sp (unwords ts) = ts.
+Proof.
+  unfold split_sp, unwords. induction ts as [|t ts IH]; intros Hne H; [contradiction|].
+  destruct ts as [|t' ts'].
+  - simpl. rewrite <- (app_nil_r t) at 1. rewrite split_sp_aux_tok by (apply H; left; reflexivity).
+    simpl. rewrite app_nil_r, rev_involutive. reflexivity.
+  - change (join sp (t :: t' :: ts')) with (t ++ sp ++ join sp (t' :: ts')).
+    rewrite split_sp_aux_tok by (apply H; left; reflexivity). rewrite app_nil_r.
+    simpl app. cbn [split_sp_aux]. change (Ascii.eqb " " " ") with true. cbv iota.
+    rewrite rev_involutive. f_equal. apply IH; [discriminate|].
+    intros x Hx. apply H. right. exact Hx.
+Qed.
+
+Lemma join_app_ne : forall (g rest : list str),
+  g <> [] -> rest <> [] -> join sp g ++ sp ++ join sp rest = join sp (g ++ rest).
+Proof.
+  intros g rest Hg Hr. destruct rest as [|r rs]; [contradiction|]. clear Hr.
+  induction g as [|a g IH]; [contradiction|].
+  destruct g as [|b g].
+  - reflexivity.
+  - change (join sp (a :: b :: g)) with (a ++ sp ++ join sp (b :: g)).
+    change ((a :: b :: g) ++ r :: rs) with (a :: ((b :: g) ++ r :: rs)).
+    change (join sp (a :: (b :: g) ++ r :: rs)) with (a ++ sp ++ join sp ((b :: g) ++ r :: rs)).
+    rewrite <- IH by discriminate. rewrite <- !app_assoc. reflexivity.
+Qed.
+
+Lemma join_unwords_concat : forall gs : list (list str),
+  (forall g, In g gs -> g <> []) -> join sp (map unwords gs) = unwords (concat gs).
+Proof.
+  induction gs as [|g gs IH]; intros H; [reflexivity|].
+  destruct gs as [|g' gs'].
+  - simpl. rewrite app_nil_r. reflexivity.
+  - change (map unwords (g :: g' :: gs')) with (unwords g :: map unwords (g' :: gs')).
+    change (join sp (unwords g :: map unwords (g' :: gs')))
+      with (unwords g ++ sp ++ join sp (map unwords (g' :: gs'))).
+    rewrite IH by (intros x Hx; apply H; right; exact Hx).
+    change (concat (g :: g' :: gs')) with (g ++ concat (g' :: gs')).
+    unfold unwords. apply join_app_ne.
+    + apply H. left. reflexivity.
+    + assert (g' <> []) by (apply H; right; left; reflexivity).
+      simpl. destruct g'; [contradiction|discriminate].
+Qed.
+
+(* strip removes the pad *)
+Lemma drop_ws_app_ws : forall p x, forallb is_ws p = true -> drop_ws (p ++ x) = drop_ws x.
+Proof.
+  induction p as [|c p IH]; intros x H; simpl in *; [reflexivity|].
+  apply andb_true_iff in H. destruct H as [Hc Hp]. rewrite Hc. apply IH. exact Hp.
+Qed.
+
+Lemma strip_pad : forall l pad,
+  head_ok l = true -> head_ok (rev l) = true -> forallb is_ws pad = true ->
+  strip (l ++ pad) = l.
+Proof.
+  intros l pad H1 H2 Hp. unfold strip.
+  rewrite (drop_ws_head (l ++ pad)) by (apply head_ok_app; exact H1).
+  rewrite rev_app_distr. rewrite drop_ws_app_ws by (apply forallb_rev; exact Hp).
+  rewrite (drop_ws_head _ H2). apply rev_involutive.
+Qed.
+
+Lemma unwords_head_ok : forall ts,
+  ts <> [] -> forallb tokenb ts = true -> head_ok (unwords ts) = true.
+Proof.
+  intros [|t ts] Hne H; [contradiction|]. simpl in H. apply andb_true_iff in H.
+  destruct H as [Ht _]. unfold unwords. destruct ts; simpl.
+  - apply token_head; assumption.
+  - apply head_ok_app. apply token_head. assumption.
+Qed.
+
+Lemma unwords_rev_head_ok : forall ts,
+  ts <> [] -> forallb tokenb ts = true -> head_ok (rev (unwords ts)) = true.
+Proof.
+  intros ts Hne H. destruct (exists_last Hne) as [ts' [t ->]].
+  rewrite forallb_app in H. apply andb_true_iff in H. destruct H as [_ H].
+  simpl in H. apply andb_true_iff in H. destruct H as [Ht _].
+  unfold unwords. destruct ts' as [|a ts'].
+  - simpl. apply token_head_rev. assumption.
+  - rewrite join_snoc by discriminate. rewrite !rev_app_distr.
+    apply head_ok_app. apply head_ok_app. apply token_head_rev. assumption.
+Qed.
+
+Lemma strip_unwords_pad : forall ts pad,
+  ts <> [] -> forallb tokenb ts = true -> forallb is_ws pad = true ->
+  strip (unwords ts ++ pad) = unwords ts.
+Proof.
+  intros. apply strip_pad; [apply unwords_head_ok|apply unwords_rev_head_ok|]; assumption.
+Qed.
+
+Lemma strip_token_pad : forall t pad,
+  tokenb t = true -> forallb is_ws pad = true -> strip (t ++ pad) = t.
+Proof.
+  intros t pad H Hp. apply (strip_unwords_pad [t] pad); [discriminate|simpl; rewrite H; reflexivity|exact Hp].
+Qed.
+
+(* take_while / drop_while over a concatenation *)
+Lemma take_while_app {A} (p : A -> bool) : forall a b,
+  forallb p a = true -> match b with [] => True | x :: _ => p x = false end ->
+  take_while p (a ++ b) = a /\ drop_while p (a ++ b) = b.
+Proof.
+  induction a as [|x a IH]; intros b Ha Hb; simpl in *.
+  - destruct b as [|y b]; [split; reflexivity|]. simpl. rewrite Hb. split; reflexivity.
+  - apply andb_true_iff in Ha. destruct Ha as [Hx Ha]. rewrite Hx.
+    destruct (IH b Ha Hb) as [E1 E2]. rewrite E1, E2. split; reflexivity.
+Qed.
+
+Lemma chunks_flat_map {A B} : forall (f : B -> list A) k (l : list B) fuel,
+  1 <= k -> (forall b, In b l -> length (f b) = k) -> length l <= fuel ->
+  chunks fuel k (flat_map f l) = map f l.
+Proof.
+  intros f k. induction l as [|b l IH]; intros fuel Hk H Hf.
+  - destruct fuel; reflexivity.
+  - destruct fuel as [|fuel]; [simpl in Hf; lia|].
+    cbn [flat_map map]. assert (length (f b) = k) as Eb by (apply H; left; reflexivity).
+    destruct (f b ++ flat_map f l) eqn:E.
+    + destruct (f b); [simpl in Eb; lia|discriminate].
+    + rewrite <- E. cbn [chunks]. rewrite E. rewrite <- E.
+      rewrite <- Eb. rewrite firstn_app, firstn_all, Nat.sub_diag. simpl firstn. rewrite app_nil_r.
+      rewrite skipn_app, skipn_all, Nat.sub_diag. simpl. rewrite Eb. f_equal.
+      apply IH; [exact Hk| |simpl in Hf; lia]. intros b' Hb'. apply H. right. exact Hb'.
+Qed.
+
+(* ============================================================ character classes *)
+From Coq Require Decimal DecimalString DecimalPos.
+Import DecimalString.
+Definition numch (c : ascii) : bool := digitb c || Ascii.eqb c "-"%char.
+
+Lemma print_Z_numch : forall z, forallb numch (print_Z z) = true.
+Proof.
+  assert (forall d, forallb numch (S (NilEmpty.string_of_uint d)) = true) as HD.
+  { intros d. apply (forallb_impl digitb); [|apply digits_uint].
+    intros a Ha. unfold numch. rewrite Ha. reflexivity. }
+  assert (forall p, forallb numch (S (DecimalString.NilZero.string_of_uint (Pos.to_uint p))) = true) as HP.
+  { intros p. pose proof (DecimalPos.Unsigned.to_uint_nonnil p) as Hn.
+    destruct (Pos.to_uint p) eqn:E; try contradiction; apply HD. }
+  intros [|p|p]; unfold print_Z; simpl Z.to_int; simpl DecimalString.NilZero.string_of_int.
+  - reflexivity.
+  - apply HP.
+  - simpl. apply HP.
+Qed.
+
+Lemma numch_head_not_name : forall l, forallb numch l = true -> is_name_line l = false.
+Proof.
+  intros [|c l] H; [reflexivity|]. simpl in *. apply andb_true_iff in H. destruct H as [H _].
+  unfold numch, digitb, is_alpha in *.
+  destruct (Ascii.eqb_spec c "*"%char); [subst; discriminate H|]. simpl.
+  apply orb_true_iff in H. destruct H as [H|H].
+  - apply andb_true_iff in H. destruct H as [H1 H2]. apply N.leb_le in H1, H2.
+    apply orb_false_iff. split; apply andb_false_iff.
+    + left. apply N.leb_gt. lia.
+    + left. apply N.leb_gt. lia.
+  - apply Ascii.eqb_eq in H. subst. reflexivity.
+Qed.
+
+Lemma is_name_line_app : forall a b, a <> [] -> is_name_line (a ++ b) = is_name_line a.
+Proof. intros [|c a] b H; [contradiction|reflexivity]. Qed.
+
+Lemma is_name_line_unwords : forall t ts, t <> [] -> is_name_line (unwords (t :: ts)) = is_name_line t.
+Proof.
+  intros t ts H. unfold unwords. destruct ts; [reflexivity|].
+  change (join sp (t :: l :: ts)) with (t ++ sp ++ join sp (l :: ts)).
+  apply is_name_line_app. exact H.
+Qed.
+
+Lemma flat_map_length_const {A B} (f : A -> list B) k : forall l,
+  (forall a, In a l -> length (f a) = k) -> length (flat_map f l) = k * length l.
+Proof.
+  induction l as [|a l IH]; intros H; simpl; [lia|].
+  rewrite app_length, (H a (or_introl eq_refl)), IH; [lia|].
+  intros b Hb. apply H. right. exact Hb.
+Qed.
+
+Lemma token_nonempty : forall t, tokenb t = true -> t <> [].
+Proof. intros t H. apply tokenb_inv in H. tauto. Qed.
+
+(* ========================================================= one section *)
+Section ResProofs.
+  Variable V : Type.
+  Variable vprint : V -> str.
+  Variable vparse : str -> option V.
+  Hypothesis vparse_vprint : forall v, vparse (vprint v) = Some v.
+  Hypothesis vprint_token : forall v, tokenb (vprint v) = true.
+  Hypothesis vprint_not_name : forall v, is_name_line (vprint v) = false.
+
+  Notation section := (section V).
+
+  Definition value_lines0 (w : nat) (vals : list V) : list str :=
+    map (fun g => unwords (map vprint g)) (wrap w vals).
+  Definition ent_lines0 (w : nat) (r : row V) : list str :=
+    print_Z (fst r) :: value_lines0 w (snd r).
+  Definition count_lines0 (wc : nat) (s : section) : list str :=
+    map (fun g => unwords (map print_nat g)) (wrap wc (map snd (s_vars V s))).
+  Definition sec0 (wc w : nat) (s : section) : list str :=
+    count_lines0 wc s ++ map fst (s_vars V s) ++ flat_map (ent_lines0 w) (s_rows V s).
+
+  Lemma vtokens : forall g : list V, forallb tokenb (map vprint g) = true.
+  Proof.
+    intros g. apply forallb_forall. intros x Hx. apply in_map_iff in Hx.
+    destruct Hx as [v [<- _]]. apply vprint_token.
+  Qed.
+
+  Lemma map_strip_pad_last : forall pad (ls : list str),
+    (forall l, In l ls -> strip l = l /\ strip (l ++ pad) = l) ->
+    map strip (pad_last pad ls) = ls.
+  Proof.
+    induction ls as [|l ls IH]; intros H; [reflexivity|].
+    destruct ls as [|l' ls'].
+    - simpl. rewrite (proj2 (H l (or_introl eq_refl))). reflexivity.
+    - change (pad_last pad (l :: l' :: ls')) with (l :: pad_last pad (l' :: ls')).
+      simpl map. rewrite (proj1 (H l (or_introl eq_refl))). f_equal.
+      apply IH. intros x Hx. apply H. right. exact Hx.
+  Qed.
+
+  Lemma map_flat_map {A B C} (f : B -> C) (g : A -> list B) l :
+    map f (flat_map g l) = flat_map (fun a => map f (g a)) l.
+  Proof. induction l; simpl; [reflexivity|]. rewrite map_app, IHl. reflexivity. Qed.
+
+  Lemma name_ok_token : forall s, name_ok_res s = true -> tokenb s = true /\ is_name_line s = true.
+  Proof.
+    intros s H. unfold name_ok_res in H. rewrite !andb_true_iff in H. destruct H as [[H1 H2] _].
+    split; [|exact H1]. destruct s; [discriminate H1|exact H2].
+  Qed.
+
+  Lemma strip_section : forall lay (s : section),
+    wf_layout lay = true -> wf_section V s = true ->
+    map strip (render_section V vprint lay s) = sec0 (l_wc lay) (l_w lay) s.
+  Proof.
+    intros lay s Hl Hs. unfold wf_layout in Hl. rewrite !andb_true_iff in Hl.
+    destruct Hl as [[Hwc Hw] Hpad]. apply Nat.ltb_lt in Hwc, Hw.
+    unfold wf_section in Hs. rewrite !andb_true_iff in Hs. destruct Hs as [[[_ Hv] _] _].
+    unfold render_section, sec0. rewrite !map_app. f_equal; [|f_equal].
+    - unfold count_lines0. rewrite map_map. apply map_ext_in. intros g Hg.
+      apply strip_unwords_pad; [|apply nat_tokens|exact Hpad].
+      pose proof (wrap_nonempty _ _ _ Hwc Hg). destruct g; [contradiction|discriminate].
+    - rewrite map_map. apply map_ext_in. intros v Hin.
+      pose proof (forallb_In _ _ Hv v Hin) as Hn. apply andb_true_iff in Hn.
+      destruct (name_ok_token _ (proj1 Hn)) as [Ht _].
+      rewrite <- (app_nil_r (fst v)) at 1. apply strip_token_pad; [exact Ht|reflexivity].
+    - rewrite map_flat_map. apply flat_map_ext. intros r.
+      unfold entity_lines, ent_lines0. simpl map. f_equal.
+      + apply strip_token_pad; [apply print_Z_token|exact Hpad].
+      + unfold value_lines0. apply map_strip_pad_last. intros l Hin.
+        apply in_map_iff in Hin. destruct Hin as [g [<- Hg]].
+        assert (map vprint g <> []) as Hne.
+        { pose proof (wrap_nonempty _ _ _ Hw Hg). destruct g; [contradiction|discriminate]. }
+        split.
+        * apply strip_unwords; [exact Hne|apply vtokens].
+        * apply strip_unwords_pad; [exact Hne|apply vtokens|exact Hpad].
+  Qed.
+
+  (* ---------------------------------------------- columns of a re-joined row *)
+  Lemma parse_cols_slice : forall id (vals : list V) a d,
+    a + d <= length vals ->
+    parse_cols V vparse (1 + a) (1 + a + d) (print_Z id :: map vprint vals)
+    = Ok (id, slice a (a + d) vals).
+  Proof.
+    intros id vals a d H. unfold parse_cols, nth_r. simpl nth_error. simpl of_opt. simpl bind.
+    rewrite parse_print_Z. simpl of_opt. simpl bind.
+    assert (Nat.ltb (Datatypes.S (length (map vprint vals))) (Datatypes.S (a + d)) = false) as ->.
+    { apply Nat.ltb_ge. rewrite map_length. lia. }
+    rewrite slice_cons. unfold slice. rewrite skipn_map, firstn_map. rewrite mapO_vparse by assumption.
+    reflexivity.
+  Qed.
+
+  Lemma read_vars_ok : forall (vars : list (str * nat)) (rows : table V) a,
+    (forall r, In r rows -> a + sum (map snd vars) <= length (snd r)) ->
+    read_vars V vparse (map (fun r => print_Z (fst r) :: map vprint (snd r)) rows) (1 + a)
+              (combine (map fst vars) (map snd vars))
+    = Ok (cut_vars V a vars rows).
+  Proof.
+    induction vars as [|[name d] vars IH]; intros rows a H; [reflexivity|].
+    simpl map. simpl combine. cbn [read_vars cut_vars].
+    assert (mapM (parse_cols V vparse (1 + a) (1 + a + d))
+                 (map (fun r => print_Z (fst r) :: map vprint (snd r)) rows)
+            = Ok (map (fun r => (fst r, slice a (a + d) (snd r))) rows)) as ->.
+    { apply mapM_ok. intros r Hr. apply parse_cols_slice. specialize (H r Hr). simpl in H. lia. }
+    simpl bind. change (1 + a + d) with (1 + (a + d)). rewrite IH.
+    - reflexivity.
+    - intros r Hr. specialize (H r Hr). simpl in H. lia.
+  Qed.
+
+  (* ------------------------------------------------------- _parse_res *)
+  Lemma ent_lines0_length : forall w (s : section) r,
+    In r (s_rows V s) ->
+    forallb (fun r => Nat.eqb (length (snd r)) (sum (map snd (s_vars V s)))) (s_rows V s) = true ->
+    length (ent_lines0 w r)
+    = Datatypes.S (length (wrap w (repeat tt (sum (map snd (s_vars V s)))))).
+  Proof.
+    intros w s r Hr H. unfold ent_lines0, value_lines0. simpl. f_equal. rewrite map_length.
+    apply wrap_length. rewrite repeat_length.
+    apply Nat.eqb_eq. apply (forallb_In _ _ H r Hr).
+  Qed.
+
+  Lemma ent_line_join : forall w (r : row V), 1 <= w ->
+    split_sp (join sp (ent_lines0 w r)) = print_Z (fst r) :: map vprint (snd r).
+  Proof.
+    intros w r Hw. unfold ent_lines0, value_lines0.
+    assert (join sp (print_Z (fst r) :: map (fun g => unwords (map vprint g)) (wrap w (snd r)))
+            = unwords (print_Z (fst r) :: map vprint (snd r))) as ->.
+    { change (print_Z (fst r)) with (unwords [print_Z (fst r)]) at 1.
+      rewrite <- (map_map (map vprint) unwords).
+      change (unwords [print_Z (fst r)] :: map unwords (map (map vprint) (wrap w (snd r))))
+        with (map unwords ([print_Z (fst r)] :: map (map vprint) (wrap w (snd r)))).
+      rewrite join_unwords_concat.
+      - simpl concat. rewrite <- concat_map, concat_wrap by exact Hw. reflexivity.
+      - intros g [<-|Hg]; [discriminate|]. apply in_map_iff in Hg. destruct Hg as [g0 [<- Hg0]].
+        pose proof (wrap_nonempty _ _ _ Hw Hg0). destruct g0; [contradiction|discriminate]. }
+    apply split_sp_unwords; [discriminate|].
+    intros t [<-|Ht].
+    - apply (forallb_impl tokch); [apply tokch_nosp|]. pose proof (print_Z_token (fst r)) as H.
+      apply tokenb_inv in H. tauto.
+    - apply in_map_iff in Ht. destruct Ht as [v [<- _]].
+      apply (forallb_impl tokch); [apply tokch_nosp|]. pose proof (vprint_token v) as H.
+      apply tokenb_inv in H. tauto.
+  Qed.
+
+  Lemma count_lines_not_name : forall wc (s : section), 1 <= wc ->
+    forallb (fun l => negb (is_name_line l)) (count_lines0 wc s) = true.
+  Proof.
+    intros wc s Hwc. apply forallb_forall. intros l Hl. unfold count_lines0 in Hl.
+    apply in_map_iff in Hl. destruct Hl as [g [<- Hg]].
+    pose proof (wrap_nonempty _ _ _ Hwc Hg) as Hne. destruct g as [|n g]; [contradiction|].
+    simpl map. rewrite is_name_line_unwords by (apply token_nonempty; apply print_nat_token).
+    rewrite numch_head_not_name; [reflexivity|apply print_Z_numch].
+  Qed.
+
+  Theorem parse_section_ok : forall lay (s : section),
+    wf_layout lay = true -> wf_section V s = true ->
+    parse_section V vparse (length (s_rows V s)) (render_section V vprint lay s)
+    = Ok (section_tables V s).
+  Proof.
+    intros lay s Hl Hs. pose proof (strip_section lay s Hl Hs) as HS.
+    unfold wf_layout in Hl. rewrite !andb_true_iff in Hl.
+    destruct Hl as [[Hwc Hw] Hpad]. apply Nat.ltb_lt in Hwc, Hw.
+    pose proof Hs as Hs'. unfold wf_section in Hs'. rewrite !andb_true_iff in Hs'.
+    destruct Hs' as [[[Hv0 Hv] Hr0] Hr].
+    unfold parse_section. rewrite HS. unfold sec0.
+    set (CL := count_lines0 (l_wc lay) s). set (NM := map fst (s_vars V s)).
+    set (DT := flat_map (ent_lines0 (l_w lay)) (s_rows V s)).
+    (* count lines *)
+    assert (take_while (fun l => negb (is_name_line l)) (CL ++ NM ++ DT) = CL) as ->.
+    { apply take_while_app; [apply count_lines_not_name; exact Hwc|].
+      unfold NM. destruct (s_vars V s) as [|v vs] eqn:E; [discriminate Hv0|]. simpl.
+      simpl in Hv. apply andb_true_iff in Hv. destruct Hv as [Hv1 _].
+      apply andb_true_iff in Hv1. destruct (name_ok_token _ (proj1 Hv1)) as [_ Hn].
+      rewrite Hn. reflexivity. }
+    assert (mapM parse_ints CL = Ok (wrap (l_wc lay) (map snd (s_vars V s)))) as ->.
+    { unfold CL, count_lines0. rewrite <- (map_id (wrap _ _)) at 2. apply mapM_ok.
+      intros g _. apply parse_ints_unwords. }
+    simpl bind. rewrite concat_wrap by exact Hwc.
+    rewrite (map_length snd). rewrite <- (map_length fst). fold NM.
+    assert (slice (length CL) (length CL + length NM) (CL ++ NM ++ DT) = NM) as ->
+      by (apply slice_app_exact).
+    assert (skipn (length CL + length NM) (CL ++ NM ++ DT) = DT) as ->.
+    { rewrite app_assoc. rewrite <- app_length. rewrite skipn_app, skipn_all, Nat.sub_diag. reflexivity. }
+    set (n := length (s_rows V s)).
+    set (L := length (wrap (l_w lay) (repeat tt (sum (map snd (s_vars V s)))))).
+    assert (forall r, In r (s_rows V s) -> length (ent_lines0 (l_w lay) r) = Datatypes.S L) as HEL
+      by (intros r Hin; apply ent_lines0_length; assumption).
+    assert (length DT = Datatypes.S L * n) as HDT.
+    { unfold DT, n. apply flat_map_length_const. exact HEL. }
+    assert (n <> 0) as Hn0.
+    { unfold n. destruct (s_rows V s); [discriminate Hr0|discriminate]. }
+    assert (Nat.eqb n 0 = false) as -> by (apply Nat.eqb_neq; exact Hn0).
+    rewrite HDT. rewrite Nat.div_mul by exact Hn0.
+    rewrite Nat.eqb_refl. cbn [negb]. cbn [Nat.eqb].
+    rewrite <- HDT.
+    assert (chunks (length DT) (Datatypes.S L) DT = map (ent_lines0 (l_w lay)) (s_rows V s)) as ->.
+    { unfold DT at 2. apply chunks_flat_map; [lia|exact HEL|]. rewrite HDT. fold n. nia. }
+    rewrite map_map.
+    rewrite (map_ext _ (fun r : row V => print_Z (fst r) :: map vprint (snd r)))
+      by (intros r; apply ent_line_join; exact Hw).
+    unfold NM. change 1 with (1 + 0). rewrite read_vars_ok.
+    - reflexivity.
+    - intros r Hin. pose proof (forallb_In _ _ Hr r Hin) as E. apply Nat.eqb_eq in E. lia.
+  Qed.
+End ResProofs.
